@@ -27,6 +27,22 @@ func (comp) Extra(prop string, tier string, seed int64, scratch string) *core.Ex
 		res.Rule = "scale rounds (monitor only): 20 000 distinct keys pending in ONE batch (MaxBatchSize 50 000) of leveldb.DB and leveldb.SerialDB; every Put is read back at once by Get and Has, and a sample again with all of them pending"
 		return res
 	}
+	// a refused SECOND open of a directory that a live persister holds must leave that persister's data alone (runs beside the rounds:
+	// the refusal takes the constructor's retries, about 11 s)
+	second := make(chan []core.Fail, 2)
+	for kind := 0; kind < 2; kind++ {
+		go func(kind int) { second <- refusedSecondOpen(kind, filepath.Join(scratch, fmt.Sprintf("c09-second-open-%d", kind))) }(kind)
+	}
+	defer func() {
+		for kind := 0; kind < 2; kind++ {
+			for _, f := range <-second {
+				res.Fails = append(res.Fails, f)
+				res.Replays = append(res.Replays, "harness extra -component persist -prop C09 -tier "+tier+"   # refused second open of a live directory")
+			}
+			res.Counts["refused_second_open_rounds"]++
+			res.Evaluations++
+		}
+	}()
 	rounds := 90
 	if tier == "thorough" {
 		rounds = 900
@@ -376,4 +392,74 @@ func scalePending(res *core.ExtraResult, prop string, kind int, name string, scr
 		_ = q.Close()
 	}
 	_ = os.RemoveAll(dir)
+}
+
+// refusedSecondOpen: P1 holds a directory with acknowledged writes (some flushed, some pending); a second constructor call on the same
+// path is refused (LevelDB's file lock); P1 goes on, is closed, and a persister opened afterwards must hold exactly P1's acknowledged map.
+func refusedSecondOpen(kind int, dir string) (fails []core.Fail) {
+	name := []string{"leveldb.DB", "leveldb.SerialDB"}[kind]
+	fail := func(format string, a ...interface{}) {
+		fails = append(fails, core.Fail{Property: "C09", Step: -1, Msg: "refused second open (" + name + "): " + fmt.Sprintf(format, a...)})
+	}
+	defer func() {
+		if r := recover(); r != nil {
+			fail("panic: %v", r)
+		}
+		_ = os.RemoveAll(dir)
+	}()
+	_ = os.RemoveAll(dir)
+	p1, err := openForExtra(kind, dir, 3)
+	if err != nil {
+		fail("first open: %v", err)
+		return
+	}
+	want := map[string][]byte{}
+	for i := 0; i < 7; i++ {
+		k, v := fmt.Sprintf("held-%d", i), []byte(fmt.Sprintf("value-%d", i))
+		if p1.Put([]byte(k), v) == nil {
+			want[k] = v
+		}
+	}
+	if p1.Remove([]byte("held-2")) == nil {
+		delete(want, "held-2")
+	}
+	if p2, err2 := openForExtra(kind, dir, 3); err2 == nil {
+		// not refused: nothing the property says; the intruder is closed again and the check goes on
+		_ = p2.Close()
+	}
+	for i := 7; i < 9; i++ {
+		k, v := fmt.Sprintf("held-%d", i), []byte(fmt.Sprintf("value-%d", i))
+		if p1.Put([]byte(k), v) == nil {
+			want[k] = v
+		}
+	}
+	if err := p1.Close(); err != nil {
+		fail("Close of the first persister failed after the refused second open: %v", err)
+		return
+	}
+	q, err := openForExtra(kind, dir, 3)
+	if err != nil {
+		fail("reopen after Close: %v", err)
+		return
+	}
+	defer q.Close()
+	for k, v := range want {
+		if got, gerr := q.Get([]byte(k)); gerr != nil || !bytes.Equal(got, v) {
+			fail("after Close (nil) and reopen, Get(%s) = (%q, %v); acknowledged value %q", k, got, gerr, v)
+			break
+		}
+	}
+	seen := 0
+	q.RangeKeys(func(k, v []byte) bool {
+		seen++
+		if wv, ok := want[string(k)]; !ok || !bytes.Equal(wv, v) {
+			fail("after Close and reopen RangeKeys visits (%q, %q), not in the acknowledged map", k, v)
+			return false
+		}
+		return true
+	})
+	if seen != len(want) && len(fails) == 0 {
+		fail("after Close and reopen RangeKeys visits %d keys, the acknowledged map has %d", seen, len(want))
+	}
+	return
 }
